@@ -14,23 +14,22 @@ Kernels, each for ALL values (no bounds, no enumeration):
 * `encOut_no_lf`     : no returned string contains a line feed (C07 at the return site), for every input.
 
 Main theorem:
-* `encOut_sound` : for every list of messages of the ASCII-representable domain (`Spec.Out.inDomainOut`, decidable: every
-  numeric field in its 32-bit range, edges in {0,1,2,4,8,16}, enums in range, identity strings without LF, list items
+* `encOut_sound_full` : for every list of messages of the ASCII-representable domain (`Spec.Out.inDomainOut`, decidable:
+  every numeric field in its 32-bit range, edges in {0,1,2,4,8,16}, enums in range, identity strings without LF, list items
   without `;`/LF/outer white space, register ids in `[A-Z0-9]*` (FLAG: decimal), SysStat float texts numerals, JSON of the
-  network configuration re-parsing to it) the independent reader of the produced lines returns EXACTLY
-  `ms.flatMap effectsOfOut` — every section, in message order, any number of messages / events / registers / map entries.
-  Hence (`encOut_sound_approx`) the executable comparison `Spec.Out.approx` the check evaluates on the real output holds.
-  Two extra hypotheses, both visible:
-  - `flatMsg`: every payload field (SVG, JSON, message text) is EITHER ASCII — with any line feeds, indentation and white
-    space whatsoever: for these the theorem proves that the C07 flattening keeps exactly the white-space-free content
-    (`OutLemmas.content_strip_ascii`, `content_stripSvg_ascii`) — OR arbitrary bytes on which the flattening is the
-    identity (no LF, no white space at the ends; SVG: empty or ending in `>`).  NOT YET PROVED: multi-line payloads
-    containing non-ASCII bytes,
-      -- theorem encOut_sound_full (h : inDomainOut o ms = true) (hpf : ∀ t, o.parseF t = t) :
-      --   readOutbound o (encOut o ms) = ms.flatMap (effectsOfOut o)
-    The missing link is `content (stripLineBreaks s) = content s` for valid UTF-8 `s` with multi-byte white-space runes
-    at line edges (the same link C07 leaves to the correspondence); the check evaluates exactly this statement on the
-    real encoder's output for such payloads.
+  network configuration re-parsing to it, every payload field (SVG, JSON, message text) valid UTF-8) the independent reader
+  of the produced lines returns EXACTLY `ms.flatMap effectsOfOut` — every section, in message order, any number of
+  messages / events / registers / map entries.
+  Hence (`encOut_sound_full_approx`) the executable comparison `Spec.Out.approx` the check evaluates on the real output holds.
+  Payload fields may have any line structure, indentation and white space whatsoever, including multi-byte white-space
+  runes (NBSP, U+2003, U+3000 …) at line edges: the C07 flattening keeps exactly the white-space-free content
+  (`C07.strip_content` under the guard `Strip.JoinSafe`, which valid UTF-8 implies: `OutLemmas.joinSafe_of_payloadOk`;
+  the SVG flattening keeps it for every byte string).  The validity of the payloads is needed: see
+  `C07.contentEq_invalid_utf8_counterexample` (`E2 80 ⏎ 85 41` flattens to a string beginning with the white-space rune
+  U+2005).
+  `encOut_sound` is the earlier statement with the additional hypothesis `flatMsg` (payloads ASCII, or flattening =
+  identity), kept unchanged; it is now a corollary.
+  One extra hypothesis, visible:
   - `∀ t, o.parseF t = t`: in this direction float values are compared as the decimal text the line carries
     (`effectsOfOut` takes the `%.1f`/`%.2f` text from the oracle); no float is interpreted.
   The availability map is emitted in the order of the association list, so the theorem covers every order Go's map
@@ -85,27 +84,32 @@ theorem encOut_no_lf (o : OutOracle) (ms : List OutMsg) : ∀ l ∈ encOut o ms,
   obtain ⟨r, _, rfl⟩ := hl
   exact C07.singleLine_no_lf r
 
-/-- the domain of `encOut_sound` -/
+/-- **Soundness of the encoder**: the produced lines, read by the independent reader, report exactly the events and
+information the messages carry, in message order — for every list of messages of the domain. -/
+theorem encOut_sound_full (o : OutOracle) (ms : List OutMsg) (h : inDomainOut o ms = true) (hpf : ∀ t, o.parseF t = t) :
+    readOutbound o (encOut o ms) = ms.flatMap (effectsOfOut o) := by
+  unfold inDomainOut at h
+  rw [List.all_eq_true] at h
+  rw [OutLemmas.encOut_R]
+  exact OutLemmas.flatMap_congr' ms _ _ (fun m hm => OutLemmas.msg_sound_full o m (h m hm) hpf)
+
+/-- … hence the comparison the check runs on the implementation's output (`approx`: per message; events and registers in
+order; the other effects, in particular the map entries, as a multiset) holds for the model's output -/
+theorem encOut_sound_full_approx (o : OutOracle) (ms : List OutMsg) (h : inDomainOut o ms = true) (hpf : ∀ t, o.parseF t = t) :
+    approx (ms.map (effectsOfOut o)) (readOutbound o (encOut o ms)) = true := by
+  rw [encOut_sound_full o ms h hpf, List.flatMap_def]
+  exact OutLemmas.approx_flatten _
+
+/-- the domain of `encOut_sound` (the earlier, narrower statement) -/
 def InDomainOutFlat (o : OutOracle) (ms : List OutMsg) : Prop := inDomainOut o ms = true ∧ ms.all OutLemmas.flatMsg = true
 
 instance (o : OutOracle) (ms : List OutMsg) : Decidable (InDomainOutFlat o ms) := by unfold InDomainOutFlat; infer_instance
 
-/-- **Soundness of the encoder**: the produced lines, read by the independent reader, report exactly the events and
-information the messages carry, in message order. -/
 theorem encOut_sound (o : OutOracle) (ms : List OutMsg) (h : InDomainOutFlat o ms) (hpf : ∀ t, o.parseF t = t) :
-    readOutbound o (encOut o ms) = ms.flatMap (effectsOfOut o) := by
-  obtain ⟨hd, hf⟩ := h
-  unfold inDomainOut at hd
-  rw [List.all_eq_true] at hd hf
-  rw [OutLemmas.encOut_R]
-  exact OutLemmas.flatMap_congr' ms _ _ (fun m hm => OutLemmas.msg_sound o m (hd m hm) (hf m hm) hpf)
+    readOutbound o (encOut o ms) = ms.flatMap (effectsOfOut o) := encOut_sound_full o ms h.1 hpf
 
-/-- … hence the comparison the check runs on the implementation's output (`approx`: per message; events and registers in
-order; the other effects, in particular the map entries, as a multiset) holds for the model's output -/
 theorem encOut_sound_approx (o : OutOracle) (ms : List OutMsg) (h : InDomainOutFlat o ms) (hpf : ∀ t, o.parseF t = t) :
-    approx (ms.map (effectsOfOut o)) (readOutbound o (encOut o ms)) = true := by
-  rw [encOut_sound o ms h hpf, List.flatMap_def]
-  exact OutLemmas.approx_flatten _
+    approx (ms.map (effectsOfOut o)) (readOutbound o (encOut o ms)) = true := encOut_sound_full_approx o ms h.1 hpf
 
 def exOracle : OutOracle := ⟨fun _ t => t, fun t => t, fun _ => asc "{}", fun _ => some {}⟩
 
@@ -123,6 +127,17 @@ def exMsgs : List OutMsg :=
 
 /-- non-vacuity of `encOut_sound`: a two-message list with every kind of section is in the domain -/
 example : InDomainOutFlat exOracle exMsgs := by decide
+
+/-- multi-line payloads with non-ASCII bytes and multi-byte white-space runes at the line edges
+(`é NBSP ⏎ EM-SPACE x IDEOGRAPHIC-SPACE ⏎ SP €`) -/
+def exMsgsUtf8 : List OutMsg :=
+  [{ topology := some { svgbase := C07.exUtf8 ++ asc "\n<svg>\n", json := asc "{\n" ++ C07.exUtf8 ++ asc "\n}" },
+     message := some C07.exUtf8, errorMsg := some (asc "a\n" ++ C07.exUtf8) }]
+
+/-- non-vacuity of `encOut_sound_full`: these messages are in the domain and outside the earlier `flatMsg` restriction,
+and the flattening really changes the message text -/
+example : inDomainOut exOracle exMsgsUtf8 = true ∧ exMsgsUtf8.all OutLemmas.flatMsg = false ∧
+    Strip.stripLineBreaks C07.exUtf8 ≠ C07.exUtf8 := by decide
 
 /-- non-vacuity: a concrete event at the top of the ranges -/
 example : edgeOk 16 = true ∧ (4294967295 : Nat) ≤ u32Max ∧ inI32 (-2147483648) = true := by decide
